@@ -24,7 +24,8 @@ CFG = {'assumptions': ['8*len(key) < 2^31 and len(keys) < 2^31 (Go int/int32 len
          'more than 2^8 (2^16) adjacent pairs share one first-difference bit) + random query sequences of 2..7 queries '
          'on one object (repeated, same range with another m, overlapping, whole range) + cross-function sessions '
          '(query / ShardByPrefix on the same slice / FirstDiffBits / query; exhaustive over 2..4-key subsets of a 6-string '
-         'universe, random 3..8 steps) + counter key sets of 8192, 9001 and 10000 keys (the slowest cases of a quick run, '
+         'universe, random 3..8 steps) + long sessions (a large-m query, the same cheap query 255 .. 131072 times, large-m '
+         'neighbours of the first query) + counter key sets of 8192, 9001 and 10000 keys (the slowest cases of a quick run, '
          're-run by the harness under GOMAXPROCS 3, 33, 97) + '
          'structured random strictly ascending key sets (flat / extension chain / differing in byte 0 / trie-shaped, over '
          '{a,b}, {00,01,a}, {00,80,ff}, full bytes, shared prefixes crossing the 8-byte chunks, empty key, key + NULs), '
